@@ -61,35 +61,50 @@ def _test_kinds(fn_node, test, param):
     return None
 
 
+def _ends_flow(stmts):
+    return bool(stmts) and isinstance(stmts[-1], (ast.Return, ast.Raise, ast.Continue, ast.Break))
+
+
 def dispatch_chain(R, fi):
-    """[(kinds set, body stmts, test node)] + default body (list of stmts, possibly empty)."""
+    """[(kinds set, body stmts, test node)] + default body (list of stmts, possibly empty).
+    Accepts an if/elif/else chain as well as a sequence of `if <kind test>: ...; return` statements
+    (each arm leaving the function) followed by the default statements."""
     param = q.param_names(fi.node)[0]
     body = [s for s in fi.node.body if not (isinstance(s, ast.Expr) and isinstance(s.value, ast.Constant))]
     chain = []
-    cur = None
-    rest = []
-    for i, s in enumerate(body):
-        if isinstance(s, ast.If) and _test_kinds(fi.node, s.test, param) is not None:
-            cur = s
-            rest = body[i + 1:]
-            break
-        if isinstance(s, ast.Assign):
-            continue
-        raise AnalysisError("idiom: %s does not start with a dispatch on its first parameter" % fi.qualname)
-    R.need(cur is not None, "idiom: no kind dispatch found in %s" % fi.qualname)
     default = None
-    while cur is not None:
-        ks = _test_kinds(fi.node, cur.test, param)
-        R.need(ks is not None, "idiom: unrecognised kind test `%s` in %s" % (q.src(cur.test), fi.qualname))
-        chain.append((ks, cur.body, cur))
-        if len(cur.orelse) == 1 and isinstance(cur.orelse[0], ast.If):
-            cur = cur.orelse[0]
-        else:
-            default = cur.orelse
-            cur = None
-    # `if ...: return` chains followed by trailing statements: those are the default arm
-    if not default:
-        default = rest
+    i = 0
+    # leading assignments (aliases) are allowed
+    while i < len(body) and isinstance(body[i], ast.Assign):
+        i += 1
+    R.need(i < len(body) and isinstance(body[i], ast.If) and _test_kinds(fi.node, body[i].test, param) is not None,
+           "idiom: %s does not start with a dispatch on its first parameter" % fi.qualname)
+    while i < len(body):
+        s = body[i]
+        if not (isinstance(s, ast.If) and _test_kinds(fi.node, s.test, param) is not None):
+            break
+        cur = s
+        open_chain = False
+        while cur is not None:
+            ks = _test_kinds(fi.node, cur.test, param)
+            R.need(ks is not None, "idiom: unrecognised kind test `%s` in %s" % (q.src(cur.test), fi.qualname))
+            chain.append((ks, cur.body, cur))
+            if len(cur.orelse) == 1 and isinstance(cur.orelse[0], ast.If):
+                cur = cur.orelse[0]
+            else:
+                if cur.orelse:
+                    default = cur.orelse
+                cur = None
+        i += 1
+        if default is not None:
+            break
+        # a following `if` continues the dispatch only if every arm so far leaves the function (or is a no-op arm such as `pass`)
+        arms_leave = all(_ends_flow(b) for k, b, n in chain[-1:])
+        if not arms_leave and i < len(body) and isinstance(body[i], ast.If) and _test_kinds(fi.node, body[i].test, param) is not None:
+            # arms that fall through to a shared tail (e.g. `return result`) are fine when the tests are mutually exclusive kinds
+            continue
+    if default is None:
+        default = body[i:]
     return param, chain, default
 
 
@@ -284,6 +299,9 @@ def extract_rules(R, prefix):
         kinds |= ks
         site = R.site(fi, node)
         key = "%s:%s" % (fi.qualname, "|".join(sorted(ks)))
+        # an arm may leave through `return <accumulator>` instead of falling through to the shared return
+        body = [b for b in body if not (isinstance(b, ast.Return) and b.value is not None and q.src(b.value) == acc)]
+        body = [b for b in body if not isinstance(b, ast.Pass)] or [ast.Pass()]
         if ks == {"none"}:
             continue
         if ks == {"future"}:
